@@ -310,4 +310,84 @@ Proof.
       assert (Hkw : kkey w = e_key D e) by (unfold CompressRefine.kkey; now rewrite He).
       rewrite Hkw in *. apply ck_orient; eauto using nth_error_In.
 Qed.
+(* ---- terminal extensions (C03 terminal_exts; clause of chk_c01) ---- *)
+Lemma last_cons_default {A} (l : list A) : forall a d, last (a :: l) d = last l a.
+Proof.
+  induction l as [|b l IH]; intros a d; [reflexivity|].
+  change (last (a :: b :: l) d) with (last (b :: l) d). now rewrite (IH b d), (IH b a).
+Qed.
+
+Lemma last_out_window D0 p : forall i s,
+  last (map (owin D0) p) (orient D0 (ds s) (kkey i)) =
+  orient D0 (ds (snd (last_out nat i s p))) (kkey (fst (last_out nat i s p))).
+Proof.
+  induction p as [|[w t] p IH]; intros i s; [reflexivity|].
+  cbn [map last_out]. rewrite last_cons_default. unfold CompressRefine.owin at 2. cbn [fst snd].
+  rewrite <- ds_flip. apply IH.
+Qed.
+
+Lemma last_out_ok D0 i s p ent : chain nat anext i s p -> nth_error T i = Some ent -> ocond D0 (ds s) (kkey i) ->
+  (exists e, nth_error T (fst (last_out nat i s p)) = Some e) /\
+  ocond D0 (ds (snd (last_out nat i s p))) (kkey (fst (last_out nat i s p))).
+Proof.
+  intros Hc. revert ent. induction Hc as [v s | v s w t p Hn Hc IH]; intros ent Hi Ho; [cbn; eauto|].
+  cbn [last_out]. pose proof (anext_knext _ _ _ _ Hn) as Hk.
+  destruct (knext_window D0 _ _ _ _ Hk Ho) as (_ & _ & Ho').
+  destruct (anext_valid D join stranded T _ _ _ _ Hn) as [e He].
+  apply (IH e He). now rewrite ds_flip.
+Qed.
+
+Lemma end_exts_spec D0 i p ent : chain nat anext i (sd D0) p -> nth_error T i = Some ent ->
+  exists e, oexts D stranded T (last (map (owin D0) p) (kkey i)) = Some e /\
+            end_exts D T D0 i p = e_single_dir e (dirb D0).
+Proof.
+  intros Hc Hi.
+  assert (Ho : ocond D0 (ds (sd D0)) (kkey i)) by (left; rewrite ds_sd; apply dir_eqb_refl).
+  destruct (last_out_ok D0 i (sd D0) p ent Hc Hi Ho) as [[e He] Ho'].
+  pose proof (last_out_window D0 p i (sd D0)) as Hw. rewrite ds_sd, orient_same in Hw. rewrite Hw.
+  set (lo := last_out nat i (sd D0) p) in *.
+  assert (Hk : kkey (fst lo) = e_key D e) by (unfold CompressRefine.kkey; now rewrite He).
+  rewrite Hk in *. rewrite (oexts_orient D0 _ _ e He Ho'). eexists. split; [reflexivity|].
+  unfold end_exts. fold lo. unfold term_exts, kexts. rewrite He.
+  assert (Hex : (e_exts D e < 256)%N) by (apply (ok_exts _ _ _ _ Hok); eapply nth_error_In; eauto).
+  destruct (dir_cases (ds (snd lo)) D0) as [E|E]; rewrite E.
+  - now rewrite dir_eqb_refl.
+  - rewrite dir_eqb_flip. rewrite single_dir_rc by exact Hex. now rewrite dirb_dflip.
+Qed.
+
+Lemma hd_rev_app {A} (l : list A) x r d : hd d (rev l ++ x :: r) = last l x.
+Proof.
+  induction l as [|a l IH] using rev_ind; [reflexivity|]. rewrite rev_app_distr. cbn [rev app hd].
+  now rewrite last_last.
+Qed.
+Lemma last_app_cons {A} (l : list A) x r : forall d, last (l ++ x :: r) d = last r x.
+Proof.
+  induction l as [|a l IH]; intro d; cbn [app]; [apply last_cons_default|].
+  rewrite last_cons_default. apply IH.
+Qed.
+Lemma first_kmer_hd K0 s : (1 <= K0)%nat -> (K0 <= length s)%nat -> first_kmer K0 s = hd [] (kmers K0 s).
+Proof.
+  intros H1 H2. unfold first_kmer, kmers. replace (length s + 1 - K0)%nat with (S (length s - K0)) by lia. reflexivity.
+Qed.
+Lemma last_kmer_last K0 s : (1 <= K0)%nat -> (K0 <= length s)%nat -> last_kmer K0 s = last (kmers K0 s) [].
+Proof.
+  intros H1 H2. unfold last_kmer, kmers. replace (length s + 1 - K0)%nat with (S (length s - K0)) by lia.
+  rewrite seq_S, map_app. cbn [map Nat.add]. now rewrite last_last.
+Qed.
+
+Lemma node_terminal lp i rp ent : nth_error T i = Some ent ->
+  chain nat anext i L lp -> chain nat anext i R rp ->
+  exists el er,
+    oexts D stranded T (first_kmer K (node_seq D T lp i rp)) = Some el /\
+    oexts D stranded T (last_kmer K (node_seq D T lp i rp)) = Some er /\
+    node_exts D T lp i rp = e_from_single_dirs (e_single_dir el false) (e_single_dir er true).
+Proof.
+  intros Hi HcL HcR.
+  destruct (node_spelling lp i rp ent Hi HcL HcR) as (S1 & S2 & _ & _).
+  destruct (end_exts_spec DLeft i lp ent HcL Hi) as [el [Hel Hl]].
+  destruct (end_exts_spec DRight i rp ent HcR Hi) as [er [Her Hr]].
+  exists el, er. rewrite first_kmer_hd, last_kmer_last by lia. rewrite S1. unfold node_wins.
+  rewrite hd_rev_app, last_app_cons. repeat split; auto.
+  unfold node_exts. now rewrite Hl, Hr.
+Qed.
 End Walk.
